@@ -482,7 +482,8 @@ def enumerate_family(family, size, work, kinds=KINDS, grepo=(True, False)):
     cfg = _write(os.path.join(work, f"cfg-{family}.json"),
                  dict(family=family, size=size, kinds=list(kinds), grepo=list(grepo)))
     out = os.path.join(work, f"family-{family}.json")
-    r = tlc.model_check("EnumLoaderRepo", env={"VT_CFG": cfg, "VT_OUT": out, "VT_SCEN": cfg, "VT_DEVS": cfg},
+    empty = _write(os.path.join(work, "empty.json"), [])
+    r = tlc.model_check("EnumLoaderRepo", env={"VT_CFG": cfg, "VT_OUT": out, "VT_SCEN": empty, "VT_DEVS": empty},
                         workers=1, timeout=1800)
     if not os.path.exists(out):
         raise tlc.MachineryError(f"family enumeration failed: {r.error}\n{r.stdout[-2000:]}")
@@ -494,10 +495,10 @@ def enumerate_family(family, size, work, kinds=KINDS, grepo=(True, False)):
     return scs, r
 
 
-def expected_outcomes(scs, devs, work, shards, cfg="MC_LoaderRepo.cfg", tag="mc"):
+def expected_outcomes(scs, devs, work, shards=None, cfg="MC_LoaderRepo.cfg", tag="mc"):
     """Stage 2: model-check the scenarios (invariants of the cfg) and collect, per scenario id,
     the summaries of every finished behaviour (OUT lines).  Returns ({id: [out]}, [TLCResult])."""
-    shards = max(1, min(shards, (len(scs) + 49) // 50))
+    shards = max(1, min(shards or tlc.NCPU, (len(scs) + 49) // 50))
     chunks = [scs[i::shards] for i in range(shards)]
     devp = _write(os.path.join(work, f"devs-{tag}.json"), list(devs))
 
@@ -539,8 +540,8 @@ def validate_traces(traces, devs, work, tag="tr"):
     return r, got
 
 
-def validate_traces_sharded(traces, devs, work, shards, tag="tr"):
-    shards = max(1, min(shards, (len(traces) + 19) // 20))
+def validate_traces_sharded(traces, devs, work, shards=None, tag="tr"):
+    shards = max(1, min(shards or tlc.NCPU, (len(traces) + 19) // 20))
     idx = [list(range(i, len(traces), shards)) for i in range(shards)]
 
     def one(i):
@@ -562,3 +563,253 @@ def vacuity(scs, devs, work, tag="vac"):
     r = tlc.model_check("MC_LoaderRepo", cfg="MC_LoaderRepo_Dev.cfg",
                         env={"VT_SCEN": sp, "VT_DEVS": dp, "VT_CFG": dp}, timeout=3000)
     return r
+
+
+# ----------------------------------------------------------------------------- random scenarios (I->S)
+LETTERS = ["a", "b", "c", "d", "e", "f"]
+
+
+def random_scenario(rng, profile):
+    """A seeded-random scenario inside the fragment the module is stated for:
+    at most one injected fault; a duplicate definition only as that fault and only for a
+    name no other file defines; with RREL every file that imports has a reference; string
+    loads without a file name only for models without imports under ImportURI providers."""
+    n = rng.randint(3, 6) if profile != "C27" else rng.randint(1, 4)
+    files = LETTERS[:n]
+    kind = rng.choice(KINDS)
+    glob_kind = kind in GLOB_KINDS
+    star_ok = kind in ("plain_uri", "fqn_uri", "rrel")
+    glob = [f for f in files if rng.random() < 0.8] or [files[-1]]
+    imports = {}
+    for f in files:
+        if glob_kind and rng.random() < 0.8:
+            imports[f] = []
+            continue
+        k = rng.choice([0, 1, 1, 2, 2, 3])
+        imp = rng.sample(files, min(k, n))
+        if star_ok and rng.random() < 0.15:
+            imp.insert(rng.randrange(len(imp) + 1), "*")
+        imports[f] = imp
+    shared = ["s1", "s2"]
+    defs = {f: ["u" + f] + [s for s in shared if rng.random() < 0.3] for f in files}
+    builtin = rng.choice([[], [], ["s1", "ub", "k"], ["k"]])
+
+    def direct(f):
+        if glob_kind:
+            return set(glob)
+        out = set()
+        for s in imports[f]:
+            out |= set(glob) if s == "*" else {s}
+        return out
+
+    refs = {}
+    clean = True
+    for f in files:
+        vis = set(defs[f]) | set(builtin)
+        for g in direct(f):
+            vis |= set(defs[g])
+        pool = sorted(vis)
+        r = [x for x in pool if rng.random() < 0.6]
+        if profile in ("C28", "C18") and rng.random() < 0.04:
+            r.append("zz")                     # an unknown name that is not the injected fault
+            clean = False
+        if not r and (imports[f] or rng.random() < 0.5):
+            r = ["u" + f]
+        rng.shuffle(r)
+        refs[f] = r
+    fault = {"kind": "none", "file": "-"}
+    phases = {"C17": [], "C27": [],
+              "C18": ["syntax", "unknown", "objproc", "modelproc", "modelproc"],
+              "C28": ["syntax", "unknown", "postponed", "notunique", "unknown", "postponed", "notunique"]}[profile]
+    if phases and rng.random() < 0.85:
+        ph = rng.choice(phases)
+        ff = rng.choice(files)
+        if ph == "postponed" and kind == "rrel":
+            ph = "unknown"
+        if ph == "notunique" and kind not in ("plain_uri", "plain_search", "plain_glob"):
+            ph = "syntax"
+        if ph == "notunique":
+            # somebody who sees the file must mention the duplicated name
+            users = [g for g in files if g == ff or ff in direct(g)]
+            g = rng.choice(users)
+            if "u" + ff not in refs[g]:
+                refs[g].append("u" + ff)
+        fault = {"kind": ph, "file": ff}
+    big = profile == "C28"
+    pad = {f: rng.choice([0, 0, 1, 2, 4] if big else [0, 0, 1]) for f in files}
+    ind = {f: rng.choice([0, 1, 2, 5] if big else [0, 0, 2]) for f in files}
+    grepo = rng.random() < 0.6
+    declared = rng.choice([[], ["p"], ["p", "q"]]) if profile == "C27" else rng.choice([[], ["p"]])
+
+    def given():
+        if profile == "C27":
+            return sorted(rng.sample(["p", "q", "project_root", "zzz"], rng.choice([0, 1, 1, 2, 3])))
+        return [x for x in declared if rng.random() < 0.3]
+
+    def load(f=None):
+        f = f or rng.choice(files)
+        how = rng.choice(["file", "file", "file", "strfile"])
+        if not glob_kind and not imports[f] and rng.random() < 0.2:
+            how = "str"
+        return {"op": "load", "file": f, "how": how, "given": given()}
+
+    session = [load() for _ in range(rng.choice([1, 2, 2, 3]))]
+    if fault["kind"] != "none":
+        session.append({"op": "repair", "file": "-", "how": "-", "given": []})
+        session += [load(session[-2]["file"])] + [load() for _ in range(rng.choice([0, 1, 2]))]
+    return dict(files=files, imports=imports, glob=glob, defs=defs, refs=refs, pad=pad, ind=ind, kind=kind,
+                grepo=grepo, builtin=builtin, declared=declared, fault=fault, session=session, clean=clean)
+
+
+def strip_events(events):
+    """The LoadEnd event carries the summary in the shape TraceLoaderRepo!Matches expects."""
+    return events
+
+
+# ----------------------------------------------------------------------------- the two conformance passes
+def check_family(rep, pid, findings, size, shards=None, sample=None, rng=None, nontrivial=None, kinds=KINDS):
+    """(M) + (S->I): enumerate the family of `pid` with TLC, model-check it (invariants of
+    MC_LoaderRepo.cfg, deadlock check on), replay every scenario (or a seeded sample) and the
+    witnesses of the listed findings against the real loader and compare with the behaviours
+    TLC printed."""
+    work = tlc.scratch(f"vt-{pid.lower()}-")
+    root = tlc.scratch(f"vt-{pid.lower()}-fs-")
+    try:
+        scs, er = enumerate_family(pid, size, work, kinds=kinds)
+        rep.add_mc(f"EnumLoaderRepo[{pid},{size}]", er, ["(scenario family evaluated by TLC)"])
+        nfam = len(scs)
+        for f in findings:                         # the stored witnesses are scenarios too
+            scs.append(dict(f["witness"], id=len(scs) + 1))
+        devs = sorted({f["deviation"] for f in findings})
+        outs, rs = expected_outcomes(scs, devs, work, shards)
+        rep.add_mc(f"MC_LoaderRepo[{pid},{size}]", merge_results(rs), INVARIANTS)
+        todo = scs
+        if sample is not None and nfam > sample:
+            todo = rng.sample(scs[:nfam], sample) + scs[nfam:]
+        for sc in todo:
+            hist, _ = run_scenario(sc, root)
+            nt = nontrivial(sc, hist) if nontrivial else True
+            judge_scenario(rep, sc, hist, outs[sc["id"]], findings, nt)
+        rep.bounds["family"] = dict(scenarios=nfam, replayed=len(todo), witnesses=len(scs) - nfam,
+                                    behaviours=sum(len(v) for v in outs.values()))
+        rep.exhaustive = len(todo) == len(scs)
+        return scs
+    finally:
+        shutil.rmtree(work, ignore_errors=True)
+        shutil.rmtree(root, ignore_errors=True)
+
+
+INVARIANTS = ["C17_OpenOnce", "C17_OpensCreated", "C17_Identity", "C17_CacheSame", "C18_CleanRepos",
+              "C18_RepairedReload", "C27_Reject", "C27_Params", "C28_Location", "(deadlock: no unfinished load)"]
+
+
+def record_traces(rng, profile, count):
+    root = tlc.scratch("vt-mf-tr-")
+    traces = []
+    try:
+        for _ in range(count):
+            sc = random_scenario(rng, profile)
+            _, events = run_scenario(sc, root)
+            traces.append({"sc": sc, "events": events})
+    finally:
+        shutil.rmtree(root, ignore_errors=True)
+    return traces
+
+
+def check_traces(rep, pid, findings, traces, shards=None):
+    """(I->S): the recorded sessions must be behaviours of LoaderRepo (TraceLoaderRepo)."""
+    work = tlc.scratch(f"vt-{pid.lower()}-tr-")
+    try:
+        rs, got = validate_traces_sharded(traces, [], work, shards, tag="doc")
+        rep.add_mc("TraceLoaderRepo", merge_results(rs), ["TraceNext consumes every recorded event"])
+        rejected = [t for t in sorted(got) if got[t]["reached"] < got[t]["len"]]
+        alt = {}
+        devs = sorted({f["deviation"] for f in findings})
+        if rejected and devs:
+            sub = [traces[t - 1] for t in rejected]
+            _, g2 = validate_traces_sharded(sub, devs, work, shards, tag="dev")
+            alt = {rejected[i]: g2[i + 1] for i in range(len(rejected))}
+        by_dev = {f["deviation"]: f["id"] for f in findings}
+        for t in sorted(got):
+            tr = traces[t - 1]
+            sc = tr["sc"]
+            if got[t]["reached"] == got[t]["len"]:
+                rep.passed(dict(kind=sc["kind"], grepo=sc["grepo"], imports=sc["imports"], fault=sc["fault"],
+                                events=[[e["e"], e.get("file", e.get("res", {}).get("kind", ""))]
+                                        for e in tr["events"]][:40]),
+                           nontrivial=len(sc["files"]) >= 2 and len(tr["events"]) >= 6)
+            elif t in alt and alt[t]["reached"] == alt[t]["len"] and alt[t]["dev"]:
+                for d in sorted(alt[t]["dev"]):
+                    rep.known_finding(by_dev[d], dict(scenario=sc))
+            else:
+                k = got[t]["reached"]
+                ev = tr["events"][k] if k < len(tr["events"]) else {}
+                rep.violation(dict(kind="trace", scenario=sc, events=tr["events"]),
+                              f"event {k + 1} of a recorded session is not a step of LoaderRepo!Next: "
+                              f"{ev.get('e')} {ev.get('file', '')} {ev.get('res', '')} "
+                              f"(kind={sc['kind']} grepo={sc['grepo']} imports={sc['imports']} fault={sc['fault']})")
+        rep.bounds["traces"] = dict(count=len(traces), events=sum(len(t["events"]) for t in traces))
+    finally:
+        shutil.rmtree(work, ignore_errors=True)
+
+
+def replay_case(path, findings):
+    """Re-run one stored violation against the real code and the module; 0 iff it now conforms."""
+    with open(path) as f:
+        rec = json.load(f)
+    case = rec["case"]
+    sc = case["scenario"]
+    work = tlc.scratch("vt-mf-replay-")
+    try:
+        hist, events = run_scenario(sc)
+        print("scenario:", json.dumps({k: sc[k] for k in ("kind", "grepo", "files", "imports", "glob", "defs",
+                                                           "refs", "builtin", "declared", "fault", "session")}))
+        for i, h in enumerate(hist):
+            print(f"load {i + 1}: {h['res']}  grepo={h['grepo']}  opens={h['opens']}")
+        if case.get("kind") == "trace":
+            _, got = validate_traces([{"sc": sc, "events": events}], [], work)
+            print("trace reached", got[1]["reached"], "of", got[1]["len"])
+            return 0 if got[1]["reached"] == got[1]["len"] else 1
+        sc = dict(sc, id=1)
+        outs, _ = expected_outcomes([sc], [], work, 1)
+        ok = any(hist_matches(hist, o["hist"])[0] for o in outs[1])
+        print("allowed by LoaderRepo:", ok)
+        if not ok:
+            print("expected one of:", json.dumps([o["hist"] for o in outs[1]][:2])[:3000])
+        return 0 if ok else 1
+    finally:
+        shutil.rmtree(work, ignore_errors=True)
+
+
+# ----------------------------------------------------------------------------- one property
+ASSUMPTIONS = [
+    "carrier grammar Model: imports*=Import elems*=Elem; Def: 'def' name=ID; Use: 'use' ref=[Def:QName] "
+    "(RREL variant ref=[Def:QName|+m:elems]); file texts follow the line layout of LoaderRepo!LineLens "
+    "(checked by the renderer)",
+    "file opens are counted by replacing `open` in the namespaces of textx.metamodel and textx.model",
+    "model identity is observed through labels file@load attached to every model object the harness sees "
+    "(a second object for the same file in one load gets a different label)",
+    "failing processors are harness callables raising on elements named bado / badm; a reference named pp "
+    "is postponed for ever by a user-level provider wrapped around the provider under test (not with RREL)",
+    "fragment: at most one injected fault per scenario; a duplicate definition only as that fault and only "
+    "for a name defined in one file; with RREL every file that has imports has a reference (imports are "
+    "loaded per reference there); model_from_str without file name only for models without imports under "
+    "ImportURI providers; imported files exist; the glob pattern matches at least one file",
+    "where the documents do not decide, the module allows every choice: order of globbed files, which of "
+    "several loaded models defining a name is the target, which of several offending references is reported, "
+    "order of object processors across models",
+]
+
+
+def run_property(rep, pid, nontrivial, rule):
+    import random
+    quick = rep.tier == "quick"
+    rng = random.Random(rep.seed)
+    findings = common.open_findings(pid)
+    rep.rule = rule
+    rep.assumptions = list(ASSUMPTIONS)
+    # (I->S) first record (real code only), then (M)+(S->I), then validate the records with TLC
+    traces = record_traces(rng, pid, 80 if quick else 800)
+    check_family(rep, pid, findings, "quick" if quick else "thorough",
+                 sample=1500 if quick else 20000, rng=rng, nontrivial=nontrivial)
+    check_traces(rep, pid, findings, traces)
